@@ -10,7 +10,7 @@
    byte-exact generator correspondence and judged on the reference machine. *)
 From Coq Require Import ZArith List String Bool.
 From Gigue Require Import Types Bits Isa Enc GenTables Builder BuilderTies Samplers Generator Machine MachineLemmas
-  SplitProofs FragProofs GenLemmas ImageSem CtorSpec C12Defs C12Proofs GenWF GenWFProps SliceLemmas GenWF2 GenWF3 GenWF2Props Witness.
+  SplitProofs FragProofs GenLemmas ImageSem CtorSpec C12Defs C12Proofs GenWF GenWFProps SliceLemmas FloatSign GenWF2 GenWF3 GenWF4 GenWF2Props Witness.
 Import ListNotations.
 Open Scope Z_scope.
 
@@ -26,12 +26,14 @@ Open Scope Z_scope.
        3*cases+1 instructions, its case methods follow back to back, each at
        its recorded address.
 
-   Hypothesis bodies_nonneg (every sized body length is >= 0) is what keeps
-   these two theorems `_partial`: the body length is ceil(size * (1 +/- v))
-   computed in binary64, and its sign is not yet derived from the SpecFloat
-   operations (it is checked on every image of the correspondence slice). *)
-Theorem C04_exact_tiling_partial : forall c script img,
-  successful c script img -> bodies_nonneg img ->
+   That a sized body length ceil(size * (1 +/- v)) is never negative - without
+   which a method would occupy fewer words than its recorded size - is derived
+   from Coq's SpecFloat definitions of the binary64 operations (FloatSign.v:
+   1 - v >= +0 for every binary64 v in [0, 1], products and ceilings of
+   non-negative values are non-negative); the model accepts only binary64
+   Gaussian variates from a script. *)
+Theorem C04_exact_tiling : forall c script img,
+  successful c script img ->
   exists e, GenWF2.tiles (im_methods img) (im_elements img)
                          (jit_start_al c + zlen (List.concat (im_tramps img)) * 4) e /\
             jit_start_al c + zlen (im_jit img) * 4 = e /\
@@ -39,8 +41,8 @@ Theorem C04_exact_tiling_partial : forall c script img,
 Proof. exact jit_is_exact_tiling. Qed.
 
 (* every recorded element address equals the byte position of its first word in jit.bin *)
-Theorem C04_element_addresses_partial : forall c script img,
-  successful c script img -> bodies_nonneg img ->
+Theorem C04_element_addresses : forall c script img,
+  successful c script img ->
   forall es1 e es2, im_elements img = (es1 ++ e :: es2)%list ->
   exists pre rest, im_jit img = (pre ++ elt_words (im_methods img) e ++ rest)%list /\
                    jit_start_al c + zlen pre * 4 = elt_addr (im_methods img) e.
@@ -69,8 +71,8 @@ Theorem C04_call_sites : forall c script img,
   successful c script img -> Forall (sites_ok c (im_methods img)) (im_methods img).
 Proof. exact call_sites_exact. Qed.
 
-Theorem C04_nonvacuous : exists img, successful wcfg_fixer wscript_fixer img /\ bodies_nonneg img.
-Proof. exact witness_nonneg_fixer. Qed.
+Theorem C04_nonvacuous : exists img, successful wcfg_fixer wscript_fixer img.
+Proof. exact witness_fixer. Qed.
 
 (* fragment lengths are exactly the sizes Method.__init__ and the generators
    assume (a mis-sized element would shift everything after it), and call /
@@ -121,8 +123,8 @@ Theorem C04_switch_targets_partial : forall v L s P n moff hit cmp,
     (forall r, 0 <= r -> r <> cmp -> rget s' r = rget s r).
 Proof. exact switch_case_hit. Qed.
 
-Print Assumptions C04_exact_tiling_partial.
-Print Assumptions C04_element_addresses_partial.
+Print Assumptions C04_exact_tiling.
+Print Assumptions C04_element_addresses.
 Print Assumptions C04_interpreter_padding.
 Print Assumptions C04_call_sites.
 Print Assumptions C04_nonvacuous.
